@@ -138,6 +138,7 @@ func cmdCheck(args []string) int {
 	}
 	merge(ctx.runSymbolic())
 	merge(ctx.runFrames())
+	merge(ctx.runPkgState())
 	for _, extra := range extraJobs[*prop] {
 		merge(extra(ctx))
 	}
